@@ -176,11 +176,14 @@ PROPS["C11"] = {
     "rule": "real client with full autodetection (query type forced in ~40% of runs; codecs and fragment size always negotiated) through an in-path relay applying one fixed transformation drawn from the product of: query-name case keep/lower/upper/random, "
             "answer-name case likewise, bytes >= 0x80 in query names keep/strip/reject, in answer names keep/strip, '+' and '_' keep/mangle/reject, refused record types (SERVFAIL/NOTIMP/silence), answer size limit none/512/768/1232/1500/4096 with drop/SERVFAIL/TC, "
             "EDNS0 honoured/stripped/dropped, answer-record shuffling, re-encoding, id rewriting, TTL rewriting; otherwise lossless. Oracle (1): if the handshake completes, packets offered on both sides are delivered exactly once, in order, intact (the C02(a) oracle); "
-            "(2) if the transformation leaves at least one usable record type and passes 512-byte answers, the handshake must complete. non-trivial = handshake completed and >=3 packets accepted per side; distinct = distinct run fingerprints",
+            "(2) if the transformation leaves at least one usable record type and passes 512-byte answers, the handshake must complete. In a fifth of the runs (and in a job of its own) the client is stopped, its slot expires, "
+            "the relay switches to a second transformation and a new client negotiates afresh on the same slot: the same two clauses are judged for the second session. "
+            "non-trivial = handshake completed and >=3 packets accepted per side (or a completed second session); distinct = distinct run fingerprints",
     "jobs": [
         {"scen": "tunnel", "sets": {"mode": "relayfam"}, "quick": 2500, "thorough": 150000},
+        {"scen": "tunnel", "sets": {"mode": "relayfam", "two": True}, "quick": 400, "thorough": 20000},
     ],
-    "expect_probes": ["c11.must_succeed", "c11.may_fail", "c11.handshake_ok", "c11.up.Base32", "c11.up.Base64", "c11.up.Base64u", "c11.up.Base128", "c11.down.T", "c11.down.S", "c11.down.U", "c11.down.V", "c11.down.R", "c11.frag.lt200", "c11.frag.ge1200"],
+    "expect_probes": ["c11.must_succeed", "c11.may_fail", "c11.handshake_ok", "c11.up.Base32", "c11.up.Base64", "c11.up.Base64u", "c11.up.Base128", "c11.down.T", "c11.down.S", "c11.down.U", "c11.down.V", "c11.down.R", "c11.frag.lt200", "c11.frag.ge1200", "c11.second.handshake_ok", "c11.second.delivered_all"],
 }
 
 PROPS["C08"] = {
